@@ -252,6 +252,8 @@ def collect(rep, prop, tier, seed, exe, replay=None):
         progs, cases, hist = gen(rng, tier)
     work = os.path.join(CACHE, "work", "%s-%s" % (prop, tier))
     records, build_fail = run_programs("R", "drv_arr.hpp", progs, cases, configs, work, exe, nshards=16, prelude=prelude, name="arr")
+    import incoq
+    incoq_n = incoq.sample_check(rep, prop, "R", records, tier, seed, work, replay)
     for (sh_, cfg, blog) in {c: (s_, c, l) for (s_, c, l) in reversed(build_fail)}.values():
         rep.violation("mdarray driver shard %s no longer builds in configuration %s" % (sh_, cfg),
                       {"obligation": "corr:arr/build/%s/%s" % (sh_, cfg), "log": blog[-3000:], "signature": "build:arr:%s" % cfg}, True)
@@ -281,7 +283,7 @@ def collect(rep, prop, tier, seed, exe, replay=None):
         if len(seen) >= 6:
             break
     return {
-        "evaluations": evaluations, "distinct_nontrivial": len(nontriv),
+        "evaluations": evaluations, "distinct_nontrivial": len(nontriv), "evaluated_inside_coq_too": incoq_n,
         "rule": "programs = straight-line sequences of 6-11 (thorough: up to 30) operations over mdarray<int, extents, layout, container> with layout in {left, right, stride (gapped), "
                 "left_padded, right_padded}, container in {std::vector, std::array<int,N> (N >= span, sometimes larger), std::pmr::vector}: the constructors (extents..., extents, mapping, "
                 "each with const container& / container&& / allocator / both), copy, move, assign, writes through a(i...) and through to_mdspan(); after every operation, for every live "
